@@ -238,6 +238,42 @@ func checkSegmentation(rec *sim.Rec, stream []byte, cuts []int, segName string, 
 	}
 }
 
+// checkPromptError: bytes that cannot begin a frame arrive over the connection and the sender
+// goes on writing. The framer reports the error when it has read them - it does not wait for the
+// connection to end, and it hands nothing of what follows to the caller as data.
+func checkPromptError(rec *sim.Rec, stream []byte, nframes int, tailKind string) {
+	more := append(append([]byte{}, stream...), wire.EncodeChannelData(0x4001, bytes.Repeat([]byte{0x55}, 36), true)...)
+	more = append(more, wire.EncodeChannelData(0x4002, bytes.Repeat([]byte{0x66}, 36), true)...)
+	cuts := []int{len(stream), len(more) - 40}
+	chunks := cutStream(more, cuts)
+	sc := &scriptConn{chunks: chunks}
+	conn := proto.NewSTUNConn(sc)
+	defer conn.Close() //nolint:errcheck
+	defer func() {
+		if r := recover(); r != nil {
+			rec.Violate("framer-panic", "garbage-then-more", "STUNConn.ReadFrom panicked (%v)", r)
+		}
+	}()
+	buf := make([]byte, 70000)
+	for k := 0; k < nframes+4; k++ {
+		n, _, err := conn.ReadFrom(buf)
+		if err == nil && k < nframes {
+			continue
+		}
+		if err == nil {
+			rec.Violate("framer-data-from-garbage", "garbage-then-more/"+tailKind, "after %d good frames and a %s tail, ReadFrom returned %d bytes %x... as data", nframes, tailKind, n, head(buf[:n]))
+
+			return
+		}
+		if sc.touched >= len(chunks) {
+			rec.Violate("framer-late", "error/"+tailKind, "bytes that cannot begin a frame (%s) were followed by more traffic: ReadFrom reported %v only after it had read to the end of everything sent (%d reads)", tailKind, err, sc.reads)
+		}
+		rec.Ev("prompt-error-checks")
+
+		return
+	}
+}
+
 func frameKind(f []byte) string {
 	if len(f) > 0 && f[0]>>6 == 1 {
 		return "chan"
@@ -337,6 +373,11 @@ func runC10Stream(t *testing.T, rng *rand.Rand, rec *sim.Rec, tier string, caseN
 		g[4] ^= 0xFF
 		stream = append(stream, g...)
 		tail = "stun-no-cookie"
+	}
+	if tail == "garbage" || tail == "stun-no-cookie" || tail == "chan-number-high" {
+		if fr, _, _ := wire.SplitFrames(stream); true {
+			checkPromptError(rec, stream, len(fr), tail)
+		}
 	}
 	bufSize := 70000
 	if caseNo%5 == 2 {
